@@ -30,6 +30,11 @@ var causes = []struct {
 	// the erroring processor is attached to ONE destination of a fan-out: the
 	// sibling branch may be the one that forwards the rejection
 	{"branch-proc-error-unabsorbed", "fatal"},
+	// the drain of an accepted stop itself surfaces a transient error (a
+	// destination's Teardown fails): the pipeline was stopped deliberately and
+	// must not be restarted by recovery
+	{"user-stop-drain-error", "stopped"},
+	{"stop-all-drain-error", "stopped"},
 }
 
 func gen(seed int64, tier string, idx int) *pipe.Scenario {
@@ -101,6 +106,12 @@ func gen(seed int64, tier string, idx int) *pipe.Scenario {
 	case "user-stop":
 		sc.Steps = []pipe.Step{{AtEvent: at, Op: "stopwait"}}
 	case "stop-all":
+		sc.Steps = []pipe.Step{{AtEvent: at, Op: "stopall"}, {AtEvent: 0, Op: "wait"}}
+	case "user-stop-drain-error":
+		d0.Dst.CallErr = map[string]string{"Teardown#1": "vf transient teardown error"}
+		sc.Steps = []pipe.Step{{AtEvent: at, Op: "stopwait"}}
+	case "stop-all-drain-error":
+		d0.Dst.CallErr = map[string]string{"Teardown#1": "vf transient teardown error"}
 		sc.Steps = []pipe.Step{{AtEvent: at, Op: "stopall"}, {AtEvent: 0, Op: "wait"}}
 	case "user-stop-during-backoff":
 		d0.Dst.Shape = map[int]string{2 + g.R.Intn(8): "streamerr"}
@@ -419,7 +430,7 @@ func judge(out *pipe.Outcome, ix *pipe.Index) pipe.Verdict {
 			}
 		}
 		want := "UserStopped"
-		if cause == "stop-all" {
+		if cause == "stop-all" || cause == "stop-all-drain-error" {
 			want = "SystemStopped"
 		}
 		if out.Settled && final != want && !(final == "Degraded") {
